@@ -88,6 +88,7 @@ def mapVerify (key value : Bytes) (root : Option Bytes) (p : SimpleProof) : Stri
   match valueOpVerify H key value root p with
   | .ok _ => "ok"
   | .error .leafHash => "err:leafhash"
+  | .error .invalidProof => "err:invalid"
   | .error .root => "err:root"
 
 def pairs : List Bytes → Option (List (Bytes × Bytes))
